@@ -214,7 +214,7 @@ def specs(tier):
     Mo = "checks.c07"
     out = []
     fam = [("square", ("id",), ("rot", 1)), ("square", ("id",), ("ins", 0, "1/2")), ("penta", ("rot", 2), ("ins", 3, "1/3")), ("tri", ("ins", 1, "1/4"), ("insrot", 1, "1/4", 2)),
-           ("tri", ("id",), ("rev",)), ("quad", ("ins", 2, "3/4"), ("id",))]
+           ("tri", ("id",), ("rev",)), ("quad", ("ins", 2, "3/4"), ("id",)), ("square", ("ins", 0, "1/2"), ("ins", 2, "1/2")), ("penta", ("ins", 1, "1/3"), ("insrot", 3, "2/3", 2))]
     if tier != "quick":
         fam += [("ell", ("rot", 3), ("insrot", 4, "2/5", 5)), ("you", ("ins", 0, "1/2"), ("ins", 6, "1/2")), ("penta", ("rev",), ("rev",)), ("square", ("insrot", 1, "1/8", 3), ("insrot", 2, "7/8", 1))]
     for p, vx, vy in fam:
